@@ -12,7 +12,7 @@
    M. the invariant of the step machine (as in Proofs_Next.v, in UTC order), termination.
    F. the theorem. *)
 From Kit.Lib Require Import Base.
-From Kit.C04 Require Import Cal Zone Str Parse Next Spec Bridge Benign Proofs_Local Proofs_Fast.
+From Kit.C04 Require Import Cal Zone Str Parse Next Spec Bridge Benign Proofs_Local Proofs_Fast Proofs_Next.
 From Coq Require Import ZArith NArith Lia Bool List ZifyBool.
 Import ListNotations.
 Open Scope Z_scope.
@@ -459,13 +459,15 @@ Section Machine.
     pose proof (month_len_range k) as Hlen.
     destruct (in_month_cell k (month_start k) ltac:(lia)) as (Hy & Hm & Hd & Hk).
     replace (cd (month_start k)) with 1 by lia.
-    rewrite go_date_resolve_next_month by apply cm_range. rewrite resolve_g by apply z_sorted.
-    fold (pre g (days_of_civil (fst (next_month (cy (month_start k)) (cm (month_start k))))
-                    (snd (next_month (cy (month_start k)) (cm (month_start k)))) 1 * 86400)).
-    f_equal. rewrite (month_succ _ _ (cm_range _)), month_start_succ.
-    pose proof (days_of_civil_index (cy (month_start k)) (cm (month_start k)) 1 (cm_range _)) as Hi.
-    fold (mkey (month_start k)) in Hi. rewrite Hk in Hi.
-    rewrite <- (month_len_index _ _ (cm_range (month_start k))).
-    fold (mkey (month_start k)). rewrite Hk. lia.
+    assert (E : days_of_civil (fst (next_month (cy (month_start k)) (cm (month_start k))))
+                  (snd (next_month (cy (month_start k)) (cm (month_start k)))) 1 =
+                month_start (k + 1)).
+    { rewrite (month_succ _ _ (cm_range _)), month_start_succ.
+      pose proof (days_of_civil_index (cy (month_start k)) (cm (month_start k)) 1 (cm_range _)) as Hi.
+      unfold mkey in Hk. rewrite Hk in Hi.
+      rewrite <- (month_len_index _ _ (cm_range (month_start k))). rewrite Hk. lia. }
+    rewrite go_date_resolve_next_month by apply cm_range. rewrite E.
+    rewrite resolve_g by apply z_sorted. reflexivity.
   Qed.
+
 End Machine.
